@@ -86,6 +86,31 @@ func (x *Exec) safety(fr *Frame, st *State, detail string, goal *Term, text stri
 	x.oblige(fr, st, "safety", detail+"|"+x.lineAnchor(x.curPos), x.sweepTags, goal, text)
 }
 
+// guardedCheck: a load or store whose address lies inside a package-level variable declared `guarded v by m`
+// needs the mutex m held (obligation class `guarded`, property C05: no unsynchronised access to shared state).
+func (x *Exec) guardedCheck(fr *Frame, st *State, p *Term, what string) {
+	if x.inSpec > 0 || len(x.prog.Cons.Guarded) == 0 {
+		return
+	}
+	root := p
+	for shapeOf(root) != shPlain && len(root.Args) > 0 {
+		root = root.Args[0]
+	}
+	if root.Kind != KSym || !strings.HasPrefix(root.Op, "g$") {
+		return
+	}
+	name := root.Op[strings.Index(root.Op, ".")+1:]
+	mu, ok := x.prog.Cons.Guarded[name]
+	if !ok {
+		return
+	}
+	tt := x.tt
+	muCell := tt.Sym(root.Op[:strings.Index(root.Op, ".")+1]+mu, "Int")
+	mp := tt.Select(x.heap(st, "M$*sync.Mutex", arraySort("Int", "Int")), muCell)
+	held := tt.Select(x.heap(st, "G$held", arraySort("Int", "Bool")), mp)
+	x.oblige(fr, st, "guarded", name+"|"+what+"|"+x.lineAnchor(x.curPos), []string{"C05"}, held, what+" of "+name+" needs "+mu+" held")
+}
+
 // lineAnchor: a short readable digest of the source line at pos.
 func (x *Exec) lineAnchor(pos token.Pos) string {
 	if !pos.IsValid() {
@@ -177,6 +202,7 @@ func (x *Exec) execInstr(fr *Frame, st *State, in ssa.Instruction) {
 	case *ssa.Store:
 		p := asTerm(x.val(fr, st, i.Addr))
 		x.nonNil(fr, st, p, "store through nil pointer")
+		x.guardedCheck(fr, st, p, "store")
 		T := i.Addr.Type().Underlying().(*types.Pointer).Elem()
 		x.storeVia(st, p, T, x.val(fr, st, i.Val))
 	case *ssa.FieldAddr:
@@ -396,6 +422,7 @@ func (x *Exec) execUnOp(fr *Frame, st *State, i *ssa.UnOp) {
 	case token.MUL: // load
 		p := asTerm(v)
 		x.nonNil(fr, st, p, "load through nil pointer")
+		x.guardedCheck(fr, st, p, "load")
 		x.setReg(st, i, x.loadVia(st, p, i.Type()))
 	case token.NOT:
 		x.setReg(st, i, tt.Not(asTerm(v)))
